@@ -9,7 +9,7 @@ import ast
 import pathlib
 
 KINDS = ["reformat", "rename-locals", "add-statement", "sql-whitespace", "rename+add", "messages", "strip-local-annotations",
-         "return-temp", "reorder-keywords", "annotate-locals", "hoist-condition", "swap-if-else"]
+         "return-temp", "reorder-keywords", "annotate-locals", "hoist-condition", "swap-if-else", "else-after-return"]
 
 
 class LocalRenamer(ast.NodeTransformer):
@@ -257,6 +257,34 @@ class SwapIfElse(ast.NodeTransformer):
         return node
 
 
+TERMINATORS = (ast.Return, ast.Raise, ast.Continue, ast.Break)
+
+
+class ElseAfterReturn(ast.NodeTransformer):
+    """`if T: ...; return` followed by more statements becomes `if T: ...; return` / `else: <those statements>`."""
+
+    def _fix(self, body):
+        for k, st in enumerate(body):
+            if isinstance(st, ast.If) and not st.orelse and st.body and isinstance(st.body[-1], TERMINATORS) and k + 1 < len(body):
+                rest = body[k + 1:]
+                # keep function-level definitions and docstrings where they are
+                if any(isinstance(x, (ast.FunctionDef, ast.AsyncFunctionDef, ast.ClassDef)) for x in rest):
+                    continue
+                st.orelse = rest
+                return body[:k + 1]
+        return body
+
+    def generic_visit(self, node):
+        super().generic_visit(node)
+        for field in ("body", "orelse", "finalbody"):
+            b = getattr(node, field, None)
+            if isinstance(b, list) and b and isinstance(b[0], ast.stmt):
+                if field == "orelse" and isinstance(node, ast.If) and len(b) == 1 and isinstance(b[0], ast.If):
+                    continue
+                setattr(node, field, self._fix(b))
+        return node
+
+
 class SqlWhitespace(ast.NodeTransformer):
     """Collapse runs of whitespace inside SQL string constants (line-comment free ones only)."""
 
@@ -302,6 +330,9 @@ def make_variant(kind, dst, repo="/repo"):
             ast.fix_missing_locations(tree)
         elif kind == "swap-if-else":
             tree = SwapIfElse().visit(tree)
+            ast.fix_missing_locations(tree)
+        elif kind == "else-after-return":
+            tree = ElseAfterReturn().visit(tree)
             ast.fix_missing_locations(tree)
         elif kind == "messages":
             tree = EditMessages().visit(tree)
